@@ -27,6 +27,8 @@ pub struct WakeupRequest {
     pub db: DatabaseIndex,
     pub key: Vec<u8>,
     pub op_type: BlockingOp,
+    /// Deadline of the blocked call, needed to put the client back if its wake-up finds nothing
+    pub deadline: Option<Instant>,
 }
 
 /// Per-database blocking registry
@@ -221,7 +223,22 @@ impl BlockingManager {
             db,
             key: key.to_vec(),
             op_type: client.op_type,
+            deadline: client.deadline,
         });
+    }
+    
+    /// Put a client back at the head of a key's queue: its wake-up found the element gone (another
+    /// client popped it first), so it keeps its place and its deadline
+    pub fn requeue_front(&self, db: DatabaseIndex, key: &[u8], client: BlockedClient) {
+        if db >= self.registries.len() {
+            return;
+        }
+        let mut registry = self.registries[db].write().unwrap();
+        registry.blocked_on_key
+            .entry(key.to_vec())
+            .or_insert_with(VecDeque::new)
+            .push_front(client);
+        registry.blocked_keys.insert(key.to_vec());
     }
     
     /// Process wake-up queue (called from main server loop)
